@@ -129,6 +129,14 @@ void harness (void)
   for (i = 0; i < NREG; i++)
     VF_ASSERT ((_dbus_object_tree_get_user_data_unlocked (tree, paths[i]) == (void *) (long) (i + 1)) == (r_reg[i] != 0), "get_object_path_data agrees with the registration set");
 
+  /* the node set is exactly the registered paths and their ancestors: no ghost nodes stay behind, so the
+   * child listing (which walks these nodes) reflects exactly the registered tree */
+  for (i = 0; i < NQ; i++)
+    {
+      int j, should = (i == 0);
+      for (j = 0; j < NREG; j++) if (r_reg[j] && is_ancestor_or_self (i, j)) should = 1;
+      VF_ASSERT ((lookup_subtree (tree, paths[i]) != 0) == (should != 0), "a tree node exists exactly for registered paths and their ancestors");
+    }
   /* dispatch */
   q_path = QP;    /* the dispatched path is part of the shape (R4): one job per (history, path) */
   for (i = 0; i < NQ; i++) handled_by[i] = vf_bool ();
